@@ -6,7 +6,7 @@ Require Import EV.model.Cfg EV.model.Frame EV.proofs.FrameP EV.model.ChanFile EV
 Open Scope Z_scope.
 
 Lemma C16_cfg_ok : proxy_master_ok = true /\ proxy_forwarder_ok = true /\ read_loops_exact = true /\ from_io_exact = true /\ to_io_single_write = true /\
-  wshape_atomic popen_write_shape = true /\ wshape_atomic socket_write_shape = true /\ cf_read_loop_cmp = CLt /\ chan_setcb_atomic = true /\ chan_receiver_locked = true.
+  wshape_atomic popen_write_shape = true /\ wshape_atomic socket_write_shape = true /\ cf_read_loop_cmp = CLt /\ chan_setcb_atomic = true /\ chan_receiver_locked = true /\ socket_io_blocking = true.
 Proof. repeat split; reflexivity. Qed.
 
 (* pipe and socket: the exact-read loop returns the same bytes for every chunking of the low-level reads, so the
